@@ -34,8 +34,8 @@ func maskString(bits map[int]bool) string {
 
 // Run is the C02 check.
 func Run(c *core.Ctx) int {
-	n := c.N(24, 300)
-	nmasks := c.N(12, 36)
+	n := c.N(24, 150)
+	nmasks := c.N(12, 24)
 	var mu sync.Mutex
 	programs, execs, lines, carriers, suspensionsSeen := 0, 0, 0, 0, 0
 	distinct := map[string]bool{}
